@@ -84,8 +84,11 @@ def _gen_evse(r, kind):
     if kind == "cont_inf":
         return {"type": "EVSE", "max": None, "min": 0}
     if kind == "dead":
-        return {"type": "Deadband", "deadband_end": r.choice([6, 6, 4, 8, round(r.uniform(0.5, 10), 1)]),
-                "max": r.choice([16, 32, 32, 48, round(r.uniform(12, 80), 1)])}
+        e_ = {"type": "Deadband", "deadband_end": r.choice([6, 6, 4, 8, round(r.uniform(0.5, 10), 1)]),
+              "max": r.choice([16, 32, 32, 48, round(r.uniform(12, 80), 1)])}
+        if r.random() < 0.06:
+            e_["deadband_end"] = e_["max"]          # an on/off station: the only non-zero pilot it takes is its maximum
+        return e_
     if kind == "finite":
         mode = r.random()
         if mode < 0.05:
@@ -205,8 +208,9 @@ def gen_world(rs: int, P: dict) -> dict:
                     cap += abs(coeffs[s["id"]]) * (mx if mx is not None else 40)
             frac = rc.uniform(*P["binding"])
             limit = max(1.0, round(cap * frac, rc.choice([0, 1, 3])))
-            if ckind == "single" and rc.random() < 0.12:
-                mems_ = [s for s in stations if s["id"] in coeffs and evse_max(s["evse"]) is not None]
+            if rc.random() < 0.12 and all(c_ == 1 for c_ in coeffs.values()):
+                ph0_ = next(s["phase"] for s in stations if s["id"] in coeffs)
+                mems_ = [s for s in stations if s["id"] in coeffs and evse_max(s["evse"]) is not None and s["phase"] == ph0_]
                 if mems_:
                     limit = float(sum(evse_max(s["evse"]) for s in rc.sample(mems_, rc.randint(1, len(mems_)))))   # exactly a sum of maxima
             cons.append({"name": "c%d" % j, "coeffs": coeffs, "limit": limit})
